@@ -10,6 +10,8 @@ pub use tinylfu::TinyLFU;
 pub use tinylfu::{TinyLFUBuilder, TinyLFUError};
 
 mod wtinylfu;
+#[cfg(feature = "verif-hooks")]
+pub use wtinylfu::WTinyLFUError;
 pub use wtinylfu::{WTinyLFUCache, WTinyLFUCacheBuilder};
 
 use crate::DefaultHashBuilder;
